@@ -31,6 +31,7 @@ type refBuilder struct {
 	argOverride func(c *Cmd, i int) (interp.Value, bool) // for hoisted args
 	coded bool
 	swQuirk bool
+	dropAfterBreak bool
 }
 
 type pendingGoto struct {
@@ -49,12 +50,16 @@ type RefOptions struct {
 	// count as "no match"), and a switch whose first trailing body-less entry
 	// is reached before any non-default case was registered is elided.
 	SwitchQuirk bool
+	// DropAfterBreak builds the alternative reference that explains known
+	// finding #10: statements that follow a break in the same block
+	// (labels included) do not exist.
+	DropAfterBreak bool
 }
 
 // BuildRef builds the reference graph of all scripts of a program. The map
 // gives each script's entry node.
 func BuildRef(scripts []*Script, opt RefOptions) (*Graph, map[*Script]*Node) {
-	b := &refBuilder{g: &Graph{Entries: map[string]*Node{}}, labels: map[*Atom]*Node{}, argOverride: opt.ArgValue, coded: opt.Coded, swQuirk: opt.SwitchQuirk}
+	b := &refBuilder{g: &Graph{Entries: map[string]*Node{}}, labels: map[*Atom]*Node{}, argOverride: opt.ArgValue, coded: opt.Coded, swQuirk: opt.SwitchQuirk, dropAfterBreak: opt.DropAfterBreak}
 	entries := map[*Script]*Node{}
 	for _, s := range scripts {
 		ret := b.g.add(&Node{Kind: NTerm, Term: "return", Desc: "implicit return"})
@@ -76,6 +81,14 @@ func BuildRef(scripts []*Script, opt RefOptions) (*Graph, map[*Script]*Node) {
 }
 
 func (b *refBuilder) block(stmts []Stmt, next, brk, cont *Node) *Node {
+	if b.dropAfterBreak {
+		for i, s := range stmts {
+			if _, ok := s.(*Break); ok {
+				stmts = stmts[:i+1]
+				break
+			}
+		}
+	}
 	entry := next
 	for i := len(stmts) - 1; i >= 0; i-- {
 		entry = b.stmt(stmts[i], entry, brk, cont)
